@@ -53,7 +53,8 @@ def gen_case(rng, small=False):
             ids = sorted({rng.randrange(0, U32 + 1) for _ in range(m)})
         entries.append([list(k), ids])
     common = pick(rng, kcls)
-    return {"entries": entries, "common": common, "arity": arity, "coord_class": ccls, "common_class": kcls}
+    return {"entries": entries, "common": common, "arity": arity, "coord_class": ccls, "common_class": kcls,
+            "layout": rng.choice(LAYOUTS)}
 
 
 def exhaustive_cases():
@@ -119,9 +120,29 @@ def spec_decode(b):
 
 
 # ---- the real code ------------------------------------------------------------------------------
-def impl_save(entries, common):
+LAYOUTS = [None, None, "stride2", "column", "backwards"]
+
+
+def rowid_array(r, layout=None):
+    """a uint32 row-id array; optionally a non-contiguous view (index entries assigned by a caller may be slices or
+    columns of other arrays), with foreign words in the gaps"""
+    a = np.array(r, dtype=np.uint32)
+    if layout == "stride2":
+        buf = np.full(2 * len(r) + 1, 0xA5A5A5A5, dtype=np.uint32)
+        buf[0:2 * len(r):2] = a
+        return buf[0:2 * len(r):2]
+    if layout == "column":
+        m = np.full((len(r), 3), 0x5A5A5A5A, dtype=np.uint32)
+        m[:, 1] = a
+        return m[:, 1]
+    if layout == "backwards":
+        return np.array(list(reversed(r)), dtype=np.uint32)[::-1]
+    return a
+
+
+def impl_save(entries, common, layout=None):
     from catii.indxio import IndxIO
-    d = {tuple(k): np.array(r, dtype=np.uint32) for k, r in entries}
+    d = {tuple(k): rowid_array(r, layout) for k, r in entries}
     with tempfile.TemporaryFile() as f:
         try:
             IndxIO.save(f, d, common, np.dtype(np.uint32))
@@ -164,6 +185,32 @@ class Loader:
             pass
 
 
+SHORT_LENS = [0, 1, 3, 40, 1000]
+LONG_LENS = [65535, 65536, 65537, 70001, 131077]
+
+
+def long_desc(rng, fixed=None):
+    """a few entries mixing short row-id arrays with ones around 2^16 / 2^17 ids (buffering and batching thresholds),
+    described compactly as [key, length, start, step] so that evidence and replays stay small"""
+    if fixed is not None:
+        kinds = fixed
+    else:
+        kinds = [rng.choice("sl") for _ in range(rng.choice([2, 3, 4]))]
+        kinds[rng.randrange(len(kinds))] = "l"
+    arity = rng.choice([1, 2])
+    desc = []
+    for j, kd in enumerate(kinds):
+        L = rng.choice(LONG_LENS if kd == "l" else SHORT_LENS)
+        step = rng.choice([1, 2, 7])
+        start = rng.choice([0, 5, 2**31, U32 - L * step])
+        desc.append([[j + 1] + [rng.randrange(3)] * (arity - 1), L, start, step])
+    return {"long": desc, "common": rng.choice([0, 300, 70000]), "arity": arity, "layout": rng.choice(LAYOUTS)}
+
+
+def expand_long(case):
+    return [[k, list(range(start, start + L * step, step))] for k, L, start, step in case["long"]]
+
+
 def canon(entries):
     return sorted([list(k), list(r)] for k, r in entries)
 
@@ -173,4 +220,6 @@ def small_desc(case):
     if len(str(s)) > 500:
         s = {"n_entries": len(case["entries"]), "arity": case.get("arity"), "common": case["common"],
              "first": case["entries"][:2]}
+    if case.get("layout"):
+        s["layout"] = case["layout"]
     return s
